@@ -89,7 +89,7 @@ func Run(r *ev.Run, replay string) {
 	concDone := make(chan string, 1)
 	go func() { concDone <- runConcurrentPart(r) }()
 
-	n := r.N(100, 4000)
+	n := r.N(100, 3200)
 	shards := r.N(6, 14)
 	var wg sync.WaitGroup
 	for sh := 0; sh < shards; sh++ {
@@ -154,6 +154,10 @@ func stepBudget(u *uni.Universe) int64 {
 	}
 	return 3000
 }
+
+// reportMu serialises "shrink, then report" so that the violations the run
+// record keeps (the first three of a class) are the shrunk ones.
+var reportMu sync.Mutex
 
 var (
 	shrunkMu sync.Mutex
@@ -226,6 +230,7 @@ func runCase(r *ev.Run, e *env, c Case, shrink bool) {
 			seen[f.class] = true
 			cc := c
 			cc.Kind, cc.Class = "inv", f.class
+			reportMu.Lock()
 			if shrink && shrinkWorthwhile("inv:"+f.class) {
 				cc.Registry = shrinkRegistry(reg, [2]string{}, 300, func(s *Registry) bool {
 					e.serve(s, c.OrderSeed)
@@ -249,6 +254,7 @@ func runCase(r *ev.Run, e *env, c Case, shrink bool) {
 				e.serve(reg, c.OrderSeed)
 			}
 			r.Violation("C18:inv:"+f.class, f.what, cc)
+			reportMu.Unlock()
 		}
 	}
 	if c.Kind == "inv" {
@@ -297,6 +303,7 @@ func runCase(r *ev.Run, e *env, c Case, shrink bool) {
 		cc := c
 		cc.Kind, cc.Root, cc.Class = "diff", root, d.class
 		what := d.what
+		reportMu.Lock()
 		if shrink && shrinkWorthwhile(d.class) {
 			cc.Registry = shrinkRegistry(reg, root, 250, func(s *Registry) bool {
 				e.serve(s, c.OrderSeed)
@@ -311,6 +318,7 @@ func runCase(r *ev.Run, e *env, c Case, shrink bool) {
 			e.serve(reg, c.OrderSeed)
 		}
 		r.Violation("C18:"+d.class, fmt.Sprintf("root %s@%s: %s\nregistry:\n%s", root[0], root[1], what, clip(cc.Registry.describe(), 6000)), cc)
+		reportMu.Unlock()
 	}
 }
 
